@@ -42,8 +42,9 @@ CFG = dict(
         "min = 0 only; the harness uses min = 0 for rendering",
         "slab test over ℝ uses Lean's x/0 = 0 for axis-parallel rays, where Go relies on ±Inf/NaN: slab_mono is about the "
         "real-number reading; axis-parallel rays are exercised by correspondence (c16.aabb.ray, grid/planar sets)",
-        "TraverseIntersectingRay with a callback that moves the range (as rendering.Mesh.Hit does) is modelled (Oct.traverse) but "
-        "the theorem covers the range-preserving callback; the range-moving use is checked by the oracle `octmesh` vs HitList",
+        "TraverseIntersectingRay: the theorem (traverse_visits_all_hits) covers callbacks that leave *min/*max alone — which includes "
+        "rendering.Mesh.Hit, whose callback only shortens its own captured max; callbacks that write through the pointers are modelled "
+        "(Oct.traverse) but no theorem is stated for them. rendering.Mesh.Hit as a whole is checked by the oracle `octmesh` vs HitList",
         "negative maxDepth (unbounded recursion on coincident elements in Go) is outside the model: depth is a natural number",
     ],
     assumptions=["float64 arithmetic in Go on amd64 is IEEE-754 without FMA contraction"],
